@@ -57,7 +57,7 @@ def write_meta(dest, ns, ncv):
         if k == "fileSizeBytes":
             line = "fileSizeBytes=%d" % (ns * nc * 2)
         elif k == "fileTimeSecs":
-            line = "fileTimeSecs=%r" % (ns / FS)
+            line = "fileTimeSecs=%.12f" % (ns / FS)       # plain notation: the meta parser reads 3.3e-05 as a string
         elif k == "imSampRate":
             line = "imSampRate=30000"
         elif ncv != 384:
